@@ -251,3 +251,34 @@ EMPTY = ()
 
 def implies(a, b):
     return (not a) or b
+
+
+# native meaning of the abstract regex / set helpers (the prover maps them to SMT symbols)
+def re_match(p, s, method='match'):
+    return getattr(p, method)(s) is not None
+
+
+def re_group(p, k, s, method='match'):
+    m = getattr(p, method)(s)
+    return (m.group(k) or '') if m else ''
+
+
+def re_group_none(p, k, s, method='match'):
+    m = getattr(p, method)(s)
+    return m is None or m.group(k) is None
+
+
+def emptyset(*a):
+    return set()
+
+
+def rangeset(*a):
+    return set(range(*a))
+
+
+def setadd(s, x):
+    return set(s or ()) | {x}
+
+
+def rev(s):
+    return tuple(reversed(tuple(s)))
